@@ -115,9 +115,15 @@ def run_c11(ctx: Ctx, M: AnnotateModel):
         val = rv.value if isinstance(rv, ast.Constant) else None
         in_exc = any(ev[0] == "except" for ev in p.events)
         parsed = any(ev[0] == "stmt" and any(isinstance(n, ast.Call) and (dotted(n.func) or "").endswith("fromstring") for n in ast.walk(ev[1])) for ev in p.events)
-        noangle = any(ev[0] == "cond" and isinstance(ev[1], ast.Compare) and isinstance(ev[1].ops[0], ast.In) and isinstance(ev[1].left, ast.Constant)
-                      and ev[1].left.value in ("<", ">") for ev in p.events) and not any(
-            ev[0] == "cond" and isinstance(ev[1], ast.Compare) and isinstance(ev[1].ops[0], ast.In) and ev[2] for ev in p.events)
+        def absent(ch: str) -> bool:
+            for ev in p.events:
+                if ev[0] == "cond" and isinstance(ev[1], ast.Compare) and len(ev[1].ops) == 1 and isinstance(ev[1].left, ast.Constant) and ev[1].left.value == ch \
+                        and norm(ev[1].comparators[0]) == P:
+                    if (isinstance(ev[1].ops[0], ast.In) and not ev[2]) or (isinstance(ev[1].ops[0], ast.NotIn) and ev[2]):
+                        return True
+            return False
+
+        noangle = absent("<") and absent(">")
         if val is True:
             nT += 1
             if in_exc or not (parsed or noangle):
